@@ -584,7 +584,7 @@ func checkC01(c *Ctx) {
 		n := 0
 		for _, ci := range callsIn(f, shortIs("GetDstPort")) {
 			n++
-			okk := libVer != nil && sr != nil && guardedAll(f, ci.(ssa.Instruction), Atom{"(" + libVer.Name() + " < 3)", false}, Atom{sr.Name(), true})
+			okk := libVer != nil && sr != nil && guardedAll(f, ci.(ssa.Instruction), Atom{"(" + pname(libVer) + " < 3)", false}, Atom{pname(sr), true})
 			r.Check(okk, "C01.5", "getPhantomDstPort: transport port only for libver >= 3 on a randomising subnet", ci.Pos(), fnName(f), "dominated by !(libVer < 3) && supportsRandom",
 				"the station asks the transport for a seeded port although the client is older than version 3 or the phantom subnet does not randomise: those clients connect to 443 and never meet the station")
 			a := ci.Common().Args
@@ -1096,7 +1096,7 @@ func (c *Ctx) checkC01Draws() {
 			d := s.desc
 			for _, g := range guardsOf(f, s.in) {
 				for _, prm := range f.Params {
-					if b, ok := prm.Type().Underlying().(*types.Basic); ok && b.Info()&types.IsInteger != 0 && strings.Contains(g, "("+prm.Name()+" ") {
+					if b, ok := prm.Type().Underlying().(*types.Basic); ok && b.Info()&types.IsInteger != 0 && strings.Contains(g, "("+pname(prm)+" ") {
 						d += " if " + g
 					}
 				}
@@ -1227,7 +1227,7 @@ func argName(f *ssa.Function, i int) string {
 		i++
 	}
 	if i < len(f.Params) {
-		return f.Params[i].Name()
+		return pname(f.Params[i])
 	}
 	return "?"
 }
